@@ -1,12 +1,15 @@
 from propbase import Comp, Prop, reg
-from oracledefs import service
+from oracledefs import service, rorace
 
 REPLICA = Comp('replica', n_quick=224, n_thorough=6000, oracle=service.service_oracle, nontrivial=service.replica_nontrivial,
                stats=service.service_stats, chunk_min=10, timeout=900)
 
+RORACE = Comp('rorace', n_quick=48, n_thorough=1500, oracle=rorace.rorace_oracle, nontrivial=rorace.rorace_nontrivial, stats=rorace.rorace_stats,
+              differential=False, chunk_min=3, timeout=900, shrink=False)
+
 reg(Prop('C16', 'Kevo.Props.C16',
          facts=['facts:api.iface.methods', 'facts:api.facade.*', 'facts:api.rpc.*', 'facts:api.svc.*'],
-         components=[REPLICA],
+         components=[REPLICA, RORACE],
          fact_tags=['api'],
          rule='component replica (executor = component service, generator weighted to read-only engines): the REAL KevoServiceServer '
               'behind an in-process gRPC server (bufconn, generated client stubs) on engine A, the same requests translated to '
@@ -23,7 +26,10 @@ reg(Prop('C16', 'Kevo.Props.C16',
               'equals the abstract map before and after, replicated apply is accepted and visible, reads come from the map, '
               'GetNodeInfo = configured role/primary address/engine flag, no unknown exported method or RPC. Non-trivial: on a '
               'read-only engine >= 2 different mutators refused, >= 1 replicated entry applied, >= 1 read answered; distinct by '
-              'script hash.',
+              'script hash. Plus implementation-only component rorace: on a read-only engine the replication applier applies 200-1500 '
+              'replicated puts/deletes while 1-8 client goroutines keep calling Put, Delete, ApplyBatch and read-write transactions: '
+              'no client call is ever accepted, every replicated entry is applied, the final content is exactly the replicated one, '
+              'the engine is still read-only.',
          trusted_base=['the rule sets classifyFacade / classifyService of extract/extract_api.go (which calls make a method a client mutator)'],
          assumptions=['the engine is switched to read-only while no read-write transaction is open (Manager.startReplica runs at server '
                       'start): a transaction commits straight on the storage manager, below the facade guard',
